@@ -100,8 +100,8 @@ def apply(src, m):
 
 def main():
     args = sys.argv[1:]
-    pid = args.pop(0)
-    opt = {"--max": "60", "--jobs": "4", "--tier": "quick", "--seed": "0", "--files": "", "--checkjobs": "4"}
+    pid = args.pop(0)            # a property id, or "file:<reactivex/...py>" = every check anchored in that file (+ --checks)
+    opt = {"--max": "60", "--jobs": "4", "--tier": "quick", "--seed": "0", "--files": "", "--checkjobs": "4", "--checks": ""}
     tests = False
     while args:
         a = args.pop(0)
@@ -109,8 +109,18 @@ def main():
             tests = True
         else:
             opt[a] = args.pop(0)
-    prop = next(json.loads(l) for l in open(os.path.join(VERIF, "properties.jsonl")) if json.loads(l)["id"] == pid)
-    files = [f for f in (opt["--files"].split(",") if opt["--files"] else prop["anchors"]["files"]) if f.startswith("reactivex/") and f.endswith(".py")]
+    props = [json.loads(l) for l in open(os.path.join(VERIF, "properties.jsonl"))]
+    if pid.startswith("file:"):
+        the_file = pid[5:]
+        files = [the_file]
+        check_ids = [p["id"] for p in props if the_file in p["anchors"]["files"]]
+        if opt.get("--checks"):
+            check_ids = sorted(set(check_ids) | set(opt["--checks"].split(",")))
+        pid = "F_" + the_file.replace("reactivex/", "").replace("/", "_").replace(".py", "")
+    else:
+        prop = next(p for p in props if p["id"] == pid)
+        check_ids = [pid]
+        files = [f for f in (opt["--files"].split(",") if opt["--files"] else prop["anchors"]["files"]) if f.startswith("reactivex/") and f.endswith(".py")]
     rng = random.Random(int(opt["--seed"]))
     allm = []
     for f in files:
@@ -148,15 +158,22 @@ def main():
         if imp.returncode != 0:
             rec["result"] = "import-error"
         else:
-            try:
-                p = subprocess.run([os.path.join(VERIF, "check"), pid, opt["--tier"]], env=env, capture_output=True, text=True, timeout=1500, cwd=VERIF)
-                rec["check_exit"] = p.returncode
-                rec["result"] = {0: "SURVIVED", 1: "killed", 2: "inconclusive"}.get(p.returncode, "exit%d" % p.returncode)
-                mech = [l.split("mech=")[1].split(" ")[0] for l in p.stdout.splitlines() if "mech=" in l]
-                rec["mechs"] = sorted(set(mech))[:4]
-            except subprocess.TimeoutExpired:
-                rec["result"] = "check-timeout"
-            if rec["result"] == "SURVIVED" and tests:
+            rec["result"] = "SURVIVED"
+            rec["by"] = None
+            for ck in check_ids:
+                try:
+                    p = subprocess.run([os.path.join(VERIF, "check"), ck, opt["--tier"]], env=env, capture_output=True, text=True, timeout=1500, cwd=VERIF)
+                except subprocess.TimeoutExpired:
+                    rec["result"] = "check-timeout"
+                    continue
+                if p.returncode == 1:
+                    rec["result"], rec["by"] = "killed", ck
+                    mech = [l.split("mech=")[1].split(" ")[0] for l in p.stdout.splitlines() if "mech=" in l]
+                    rec["mechs"] = sorted(set(mech))[:4]
+                    break
+                if p.returncode == 2 and rec["result"] == "SURVIVED":
+                    rec["result"] = "inconclusive"
+            if rec["result"] in ("SURVIVED", "inconclusive") and tests:
                 os.symlink(os.path.join(REPO, "tests"), os.path.join(d, "tests"))
                 for cfg in ("pyproject.toml", "setup.cfg", "pytest.ini", "tox.ini"):
                     if os.path.exists(os.path.join(REPO, cfg)):
@@ -171,7 +188,8 @@ def main():
         shutil.rmtree(d, ignore_errors=True)
         for key in ("indent",):
             rec.pop(key, None)
-        print("%-12s %s:%d %s%s" % (rec["result"], m["file"].replace("reactivex/", ""), m["line"], m["what"], (" tests=" + rec["tests"]) if "tests" in rec else ""), flush=True)
+        print("%-12s %s:%d %s%s%s | %s" % (rec["result"], m["file"].replace("reactivex/", ""), m["line"], m["what"], (" tests=" + rec["tests"]) if "tests" in rec else "",
+                                          (" by=" + rec["by"]) if rec.get("by") else "", (m.get("old_line") or "").strip()[:90]), flush=True)
         return rec
 
     with ThreadPoolExecutor(int(opt["--jobs"])) as ex:
